@@ -1,1 +1,1 @@
-from . import engine, models, models_vec, models_clvm, models_hash, models_sha, models_misc, models_last  # noqa: F401 (registers library models)
+from . import engine, models, models_vec, models_clvm, models_hash, models_sha, models_misc, models_fmt, models_last  # noqa: F401 (registers library models)
